@@ -141,6 +141,15 @@ type GenDir struct {
 	Rel   string // "" (main package) or "dep"
 	Pkg   string
 	Files []*GenFile
+	At    string `json:",omitempty"` // directory relative to the program when it is not Rel (vendored dependency of the location sweep)
+}
+
+// Where returns the directory of the package relative to the program directory.
+func (d *GenDir) Where() string {
+	if d.At != "" {
+		return d.At
+	}
+	return d.Rel
 }
 
 // GenPkg is one generated program.
